@@ -1,5 +1,6 @@
 //! Engine B: world generator + in-process drivers for all generators.
 mod backends;
+mod c05;
 mod c09;
 mod c12;
 mod c13;
@@ -12,6 +13,7 @@ mod c30;
 mod c31;
 mod c32;
 mod c33;
+mod exec;
 mod wasmbuild;
 
 use proptest::prelude::*;
@@ -39,6 +41,7 @@ fn main() {
     }
     let mut check = vcommon::Check::new(&args);
     match args.id.as_str() {
+        "C05" | "C06" => c05::run(&mut check),
         "C09" => c09::run(&mut check),
         "C12" => c12::run(&mut check),
         "C13" => c13::run(&mut check),
